@@ -269,6 +269,15 @@ def gen_cases(tier):
             for size in (0.5, 5.0, 80.0):
                 for pr in PARAMS:
                     yield ('closed', ''.join(kinds), [], [size], pr)
+    # the same drawings at other scales (all coordinates and maxjointsize multiplied)
+    for sc in REGIME_SCALES:
+        for kinds in itertools.product('LC', repeat=2):
+            for a in ANGLES2:
+                for ls in ([3.0, 3.0], [0.3, 60.0]):
+                    yield ('open', ''.join(kinds), [a], list(ls), PARAMS[0], sc)
+        for kinds in itertools.product('LC', repeat=3):
+            for size in (5.0,):
+                yield ('closed', ''.join(kinds), [], [size], PARAMS[0], sc)
     for n in (3, 4):
         for kinds in itertools.product('LC', repeat=n):
             if kinds[0] != 'L':
@@ -307,9 +316,25 @@ def gen_cases(tier):
             yield ('single', kind, [], [L_], PARAMS[3])
 
 
+REGIME_SCALES = [1e-9, 1e-6, 1e6]
+
+
+def rescaled(segs, sc):
+    return [type(s_)(*[q * sc for q in s_.bpoints()]) for s_ in segs]
+
+
 def run_case(c, acc):
-    mode, kinds, angles, ls, pr = c
+    mode, kinds, angles, ls, pr = c[:5]
+    sc = c[5] if len(c) > 5 else None
     case = {'mode': mode, 'kinds': kinds, 'angles': angles, 'lengths': ls, 'maxjointsize': pr[0], 'tightness': pr[1]}
+    if sc is not None:
+        case['maxjointsize'] = pr[0] * sc
+        # the same drawing, every coordinate multiplied by sc (maxjointsize with it)
+        case['scale'] = sc
+        acc.seen('drawing_scale:%g' % sc)
+        segs = turtle(kinds, angles, ls) if mode == 'open' else closed_shape(kinds, ls[0])
+        check(rescaled(segs, sc), mode != 'open', pr[0] * sc, pr[1], case, acc)
+        return
     if mode == 'single':
         s, _ = make_seg(kinds, 1 + 1j, 1 + 0j, ls[0])
         p = Path(s)
@@ -359,5 +384,8 @@ def space(tier, seed):
 
 def replay(case):
     acc = core.ReplayAcc()
+    if 'scale' in case:
+        run_case((case['mode'], case['kinds'], case['angles'], case['lengths'], PARAMS[0], case['scale']), acc)
+        return acc.vlist
     run_case((case['mode'], case['kinds'], case['angles'], case['lengths'], (case['maxjointsize'], case['tightness'])), acc)
     return acc.vlist
